@@ -34,7 +34,7 @@ fn gc_parked(wait: Duration) -> bool {
     }
 }
 
-pub fn run(dir: PathBuf, clock: Option<u64>, gate_gc: bool, http: bool) {
+pub fn run(dir: PathBuf, clock: Option<u64>, gate_gc: bool, http: bool, serve: bool) {
     let rt = tokio::runtime::Builder::new_multi_thread()
         .worker_threads(4)
         .enable_all()
@@ -63,6 +63,58 @@ pub fn run(dir: PathBuf, clock: Option<u64>, gate_gc: bool, http: bool) {
             std::thread::sleep(Duration::from_millis(2));
         }
         ready["start"] = json!(store.head("xs.start", xs::store::ZERO_CONTEXT).map(|f| frame_json(&f)));
+    }
+    if serve {
+        // the three processor serve loops, wired as /repo/src/main.rs does (one engine, cloned)
+        ready["last"] = json!(store.read_sync(None, None, None).last().map(|f| f.id.to_string()));
+        let engine = xs::nu::Engine::new().expect("engine");
+        // the hook log tells when each serve loop's start-up scan has sent its threshold: a frame
+        // appended after that is live for the loop (it is behind the threshold in its channel)
+        verif::set_log(true);
+        {
+            let (store, engine) = (store.clone(), engine.clone());
+            rt.spawn(async move {
+                let _ = xs::generators::serve(store, engine).await;
+            });
+        }
+        {
+            let (store, engine) = (store.clone(), engine.clone());
+            rt.spawn(async move {
+                let _ = xs::handlers::serve(store, engine).await;
+            });
+        }
+        {
+            let (store, engine) = (store.clone(), engine.clone());
+            rt.spawn(async move {
+                let _ = xs::commands::serve(store, engine).await;
+            });
+        }
+    }
+    if serve {
+        let deadline = std::time::Instant::now() + Duration::from_secs(20);
+        let mut loops: Vec<String> = vec![];
+        let mut done: Vec<String> = vec![];
+        loop {
+            for ev in verif::take_log() {
+                let actor = ev["actor"].as_str().unwrap_or("").to_string();
+                match ev["ev"].as_str().unwrap_or("") {
+                    // the serve loops read all contexts; handler instances always name theirs
+                    "read.subscribed" if ev["follow"] == json!(true) && ev["ctx"].is_null() => loops.push(actor),
+                    "hist.threshold" => done.push(actor.trim_end_matches(".hist").to_string()),
+                    _ => {}
+                }
+            }
+            if loops.len() >= 3 && loops.iter().all(|r| done.contains(r)) {
+                break;
+            }
+            if std::time::Instant::now() > deadline {
+                println!("{}", json!({"ready": false, "err": "serve loops did not reach their threshold"}));
+                std::process::exit(3);
+            }
+            std::thread::sleep(Duration::from_micros(300));
+        }
+        verif::set_log(false);
+        let _ = verif::take_log();
     }
     let stdin = std::io::stdin();
     let stdout = std::io::stdout();
@@ -330,6 +382,70 @@ fn exec(
             json!({"steps": steps, "dump": store.verif_dump()})
         }
         "dump" => json!({"dump": store.verif_dump()}),
+        "gates" => {
+            let ps: Vec<String> = req["prefixes"].as_array().map(|a| a.iter().filter_map(|x| x.as_str().map(|s| s.to_string())).collect()).unwrap_or_default();
+            let refs: Vec<&str> = ps.iter().map(|s| s.as_str()).collect();
+            verif::set_gates(&refs);
+            json!({"gates": ps})
+        }
+        "step" => {
+            // release one parked actor (no-op if nothing parks there: hooks not compiled in)
+            let actor = req["actor"].as_str().unwrap_or("");
+            let wait = Duration::from_millis(req["wait_ms"].as_u64().unwrap_or(300));
+            match verif::settle(actor, wait) {
+                Ok(ActorState::Parked(at)) => {
+                    let r = verif::step(actor, Duration::from_millis(20));
+                    json!({"stepped": true, "at": at, "then": format!("{:?}", r)})
+                }
+                other => json!({"stepped": false, "state": format!("{:?}", other)}),
+            }
+        }
+        "stream" => {
+            // the whole stream over all contexts in id order, each frame with its CAS content
+            let last = opt_id(&req["last"]);
+            let with_content = req["content"].as_bool().unwrap_or(true);
+            let frames: Vec<Value> = store
+                .read_sync(last.as_ref(), None, None)
+                .map(|f| {
+                    let mut v = frame_json(&f);
+                    if with_content {
+                        if let Some(h) = &f.hash {
+                            v["content"] = match store.cas_read_sync(h) {
+                                Ok(b) => json!(base64::prelude::BASE64_STANDARD.encode(b)),
+                                Err(_) => Value::Null,
+                            };
+                            v["cas_ok"] = json!(!v["content"].is_null());
+                        }
+                    }
+                    v
+                })
+                .collect();
+            json!({"frames": frames})
+        }
+        "burst" => {
+            // several client threads appending at once (mode B): items are append requests
+            let items: Vec<Value> = req["items"].as_array().cloned().unwrap_or_default();
+            let nthreads = req["threads"].as_u64().unwrap_or(2).max(1) as usize;
+            let mut lanes: Vec<Vec<(usize, Value)>> = vec![vec![]; nthreads];
+            for (i, it) in items.into_iter().enumerate() {
+                lanes[i % nthreads].push((i, it));
+            }
+            let results = std::sync::Mutex::new(Vec::<(usize, Value)>::new());
+            std::thread::scope(|sc| {
+                for lane in &lanes {
+                    let results = &results;
+                    sc.spawn(move || {
+                        for (i, it) in lane {
+                            let r = exec(rt, store, "append", it, false);
+                            results.lock().unwrap().push((*i, r));
+                        }
+                    });
+                }
+            });
+            let mut r = results.into_inner().unwrap();
+            r.sort_by_key(|x| x.0);
+            json!({"results": r.into_iter().map(|x| x.1).collect::<Vec<_>>()})
+        }
         "exit" => json!({"bye": true}),
         other => json!({"err": format!("unknown op {other}")}),
     }
